@@ -6,6 +6,7 @@ Extraction Language OCaml.
 Extraction "tables_model.ml"
   tree_init tree_step tree_find_nh tree_find_strat list_fib list_strat tree_minimal_b
   ht_init ht_step ht_find_nh ht_find_strat ht_minimal_b
+  expand_bop
   spec_init spec_step spec_find_nh spec_find_strat spec_list_fib spec_list_strat
   rib_init rib_step list_rib rib_minimal_b rspec_step rget fib_want want_lookup want_listing
   ft_step ft_get face_round_ok
